@@ -32,22 +32,22 @@ PROPS = {
                          ("geom", dict(quick=[("C08", 1200)], thorough=[("C08", 40000)]))],
                 design="DESIGN.md section 4 C08",
                 assumptions=["no sampled value is NaN (premise of the binary64 range theorem; monitored on every recorded proposal)"]),
-    "C02": dict(props_file="props/C02.v", engines=[("geom", dict(quick=[("C02", 8000)], thorough=[("C02", 400000)]))],
+    "C02": dict(props_file="props/C02.v", engines=[("geom", dict(quick=[("C02", 8000)], thorough=[("C02", 400000)], coqeval_thorough=400))],
                 design="DESIGN.md section 4 C02"),
     "C03": dict(props_file="props/C03.v", engines=[("geom", dict(quick=[("C03", 8000)], thorough=[("C03", 400000)]))],
                 design="DESIGN.md section 4 C03"),
     "C13": dict(props_file="props/C13.v", engines=[("geom", dict(quick=[("C13", 20000)], thorough=[("C13", 2000000)]))],
                 design="DESIGN.md section 4 C13"),
-    "C01": dict(props_file="props/C01.v", engines=[("geom", dict(quick=[("C01", 20000)], thorough=[("C01", 1500000), ("C01a", 300000)]))],
+    "C01": dict(props_file="props/C01.v", engines=[("geom", dict(quick=[("C01", 20000)], thorough=[("C01", 1500000), ("C01a", 300000)], coqeval_quick=24, coqeval_thorough=400))],
                 design="DESIGN.md section 4 C01"),
     "C12": dict(props_file="props/C12.v", engines=[("geom", dict(quick=[("C12", 30000)], thorough=[("C12", 2000000)]))],
                 design="DESIGN.md section 4 C12"),
     "C04": dict(props_file="props/C04.v", needs_gen=True,
                 engines=[("geom", dict(quick=[("C04", 4000)], thorough=[("C04", 200000)])), ("tables", dict(groups=True))],
                 design="DESIGN.md section 4 C04"),
-    "C14": dict(props_file="props/C14.v", engines=[("geom", dict(quick=[("C14", 4000)], thorough=[("C14", 200000)]))],
+    "C14": dict(props_file="props/C14.v", engines=[("geom", dict(quick=[("C14", 4000)], thorough=[("C14", 200000)], coqeval_quick=24, coqeval_thorough=400))],
                 design="DESIGN.md section 4 C14"),
-    "C15": dict(props_file="props/C15.v", engines=[("geom", dict(quick=[("C15", 4000)], thorough=[("C15", 200000)]))],
+    "C15": dict(props_file="props/C15.v", engines=[("geom", dict(quick=[("C15", 4000)], thorough=[("C15", 200000)], coqeval_quick=24, coqeval_thorough=400))],
                 design="DESIGN.md section 4 C15"),
     "C17": dict(props_file="props/C17.v", engines=[("parse", dict(grammar_quick=1500, grammar_thorough=20000,
                                                                    arbitrary_quick=3000, arbitrary_thorough=200000))],
